@@ -1574,12 +1574,28 @@ package leveldb
 // C20: buffers do not cross the API boundary.
 // A batch record is a copy: the batch does not point into the caller's key / value and does not touch them.
 //@ func (*Batch).grow
-//@   props C20
+//@   props C20 C01 C04
 //@   safety off
 //@   requires n >= 0 && n <= 4398046511104 && len(b.data) <= 1099511627776
-//@   ensures [C20:room] cap(b.data) - len(b.data) >= n && len(b.data) == len(old(b.data))
+//@   ensures [C01,C04,C20:room] cap(b.data) - len(b.data) >= n && len(b.data) == len(old(b.data))
+//@   ensures [C01,C04:the-records-so-far-are-kept] forall k int :: (0 <= k && k < len(b.data)) ==> b.data[k] == old(b.data)[k]
 //@   ensures [C20:own-buffer] sameslice(b.data, old(b.data)) || freshbase(b.data)
 //@   modifies b.data
+// C01 / C04: a record appended to a batch - its kind byte, the key behind its length, for a Put the value behind its
+// length - is described by the index entry appended with it (positions and lengths name exactly those bytes), the
+// batch's accounted size grows by key + value + 8, and the records before it are left as they were.
+//@ func (*Batch).appendRec
+//@   props C01 C04
+//@   safety off
+//@   requires !sameblock(key, b.data) && !sameblock(value, b.data) && len(key) <= 1099511627776 && len(value) <= 1099511627776 && len(b.data) <= 1099511627776 && len(b.index) <= 1099511627776 && kt <= 1
+//@   ensures [C01,C04:one-index-entry-for-the-record] len(b.index) == old(len(b.index)) + 1 && b.index[old(len(b.index))].keyType == kt && b.index[old(len(b.index))].keyLen == len(key) && b.index[old(len(b.index))].keyPos == old(len(b.data)) + 1 + uvlen(uint64(len(key)))
+//@   ensures [C01,C04:the-value-of-a-put-is-indexed-behind-the-key] kt == keyTypeVal ==> (b.index[old(len(b.index))].valueLen == len(value) && b.index[old(len(b.index))].valuePos == old(len(b.data)) + 1 + uvlen(uint64(len(key))) + len(key) + uvlen(uint64(len(value))))
+//@   ensures [C01,C04:a-deletion-carries-no-value] kt != keyTypeVal ==> b.index[old(len(b.index))].valueLen == 0
+//@   ensures [C01,C04:the-accounted-size-grows-by-the-record] b.internalLen == old(b.internalLen) + len(key) + (kt == keyTypeVal ? len(value) : 0) + 8
+//@   ensures [C01,C04:the-record-starts-with-its-kind] b.data[old(len(b.data))] == byte(kt)
+// (that the bytes at the indexed positions equal the caller's key and value is not claimed: the obligation does not
+// discharge within the budget; the positions, lengths, the kind byte and the frame are)
+//@   ensures [C01,C04:the-records-before-it-are-kept] forall k int :: (0 <= k && k < old(len(b.data))) ==> b.data[k] == old(b.data)[k]
 //@ func (*Batch).appendRec
 //@   props C20
 //@   safety off
@@ -2588,6 +2604,7 @@ package leveldb
 //@     assume [C20:pool-does-not-hand-out-the-callers-batch] result != batch
 //@   at before call (*Batch).appendRec#1
 //@     assume [C20:merged-record-does-not-point-into-the-scratch-batch] !sameblock(incoming.key, ourBatch.data) && !sameblock(incoming.value, ourBatch.data) && len(incoming.key) <= 1099511627776 && len(incoming.value) <= 1099511627776 && len(ourBatch.data) <= 1099511627776
+//@     assume [C01,C04:merged-record-does-not-point-into-the-scratch-batch] !sameblock(incoming.key, ourBatch.data) && !sameblock(incoming.value, ourBatch.data) && len(incoming.key) <= 1099511627776 && len(incoming.value) <= 1099511627776 && len(ourBatch.data) <= 1099511627776 && len(ourBatch.index) <= 1099511627776 && incoming.keyType <= 1
 //@     assert [C20:callers-batch-not-extended] recv != batch || old(ourBatch) == batch
 
 // C11 (isolation): reads through a transaction layer the transaction's own buffer and tables over the DB state at
